@@ -146,6 +146,16 @@ CHECKS = {
             "`mypy DIR`, files in every order, `-p PKG`, `-m MOD` through the real process_options + build: same "
             "diagnostics (unless the duplicate-module blocker), and graph[module_of(F)].path is F or its sibling stub.",
             "fixture stubs (real typeshed only in the replay's CLI leg); 4-file layers screened by source-list comparison", "4/C18"),
+    "C19": ("exploration",
+            "exhaustive enumeration of a definition grammar x stubgen modes against four oracles",
+            "Every element of a definition grammar (all 149 parameter-kind sequences x default forms x annotation modes, "
+            "annotation spellings, classes/properties/static/class methods, dataclasses, enums, NamedTuple and TypedDict in "
+            "both syntaxes, overloads, old-style and PEP 695 generics, aliases, conditional definitions, __all__ variants, "
+            "relative imports) x {--parse-only, default, --inspect-mode} through the real stubgen; oracles: ast.parse, mypy "
+            "on the stub alone (bundled typeshed), stubtest against the imported runtime module, and a structural "
+            "comparison of names and spelled-out annotations. Every signature is re-run with its element alone.",
+            "batching may let a neighbour supply an import an element needs (isolation re-runs only for seen signatures)",
+            "4/C19"),
 }
 
 NOT_BUILT = {}
